@@ -208,7 +208,7 @@ func init() {
 			Patterns: patterns,
 			Units:    units,
 			Regex:    "^VH_C06_",
-			Cfg:      sym.Config{MaxLoop: 40, MaxPaths: 12000},
+			Cfg:      sym.Config{MaxLoop: 40, MaxPaths: map[string]int{"quick": 12000, "thorough": 200000}[tierOf(tier)]},
 			Bounds: map[string]string{
 				"record step":   "per field: tag with every wire type 0..7 followed by arbitrary bytes such that the first record fails or spans the whole buffer (varint <= 11 bytes, fixed <= 8/4, length-delimited with an arbitrary 64-bit declared length and a payload of symbolic length <= 2^21 for string/bytes/message fields, <= 2 bytes for packed and map payloads in the quick tier, <= 5 (packed) and <= 4 (map entries) in the thorough tier), decoded into an arbitrary pre-state of that field; arbitrary-length inputs follow by induction over the record loop (argued, not solver-decided)",
 				"arbitrary":     fmt.Sprintf("whole closure on fully arbitrary buffers of 0..%d bytes (unknown numbers, non-minimal and over-long tags)", anyN),
